@@ -278,7 +278,7 @@ class Tensor(rigid.Box):
     def grad(self, var, **params):
         """ Gradient with respect to variables. """
         return self.map(lambda x:
-                        getattr(x, "diff", lambda _: 0)(var, **params))
+                        getattr(x, "diff", lambda _, **__: 0)(var, **params))
 
     def jacobian(self, variables, **params):
         """
